@@ -241,6 +241,7 @@ struct World {
     splits: Addr,
     group: Addr,
     splits_id: u64,
+    group_id: u64,
     tracked: BTreeSet<u64>,
     /// cw2 record the contract wrote at instantiation (name, version)
     cw2: (String, String),
@@ -367,7 +368,6 @@ impl S {
 
     fn build_world(header: &str) -> Option<World> {
         let mode = kv(header, "mode")?;
-        let self_id = kv_u64(header, "self")?;
         let group_id = kv_u64(header, "group")?;
         let admin = kv_opt_u64(header, "admin")?.map(addr);
         let gadmin = kv_opt_u64(header, "gadmin")?.map(addr);
@@ -402,15 +402,15 @@ impl S {
             _ => return None,
         };
         app.update_block(next_block);
-        // the header names the addresses the model uses; they must be the real ones
-        assert_eq!(addr_id(splits.as_str()), self_id, "header self= does not match the instantiated splits address {splits}");
-        assert_eq!(addr_id(group.as_str()), group_id, "header group= does not match the group address {group}");
+        // the header names the addresses the generator expected (cw-multi-test's `contract{n}` numbering); the model is told
+        // the REAL ones (see `begin`), so a different numbering does not desynchronise the two sides
+        let (self_id, group_id) = (addr_id(splits.as_str()), addr_id(group.as_str()));
         let mut tracked: BTreeSet<u64> = ids_in_line(header).into_iter().collect();
         tracked.insert(self_id);
         tracked.insert(group_id);
         tracked.insert(CREATOR);
         let cw2 = cw2::get_contract_version(&*app.contract_storage(&splits)).map(|v| (v.contract, v.version)).unwrap_or_default();
-        Some(World { app, splits, group, splits_id: self_id, tracked, cw2 })
+        Some(World { app, splits, group, splits_id: self_id, group_id, tracked, cw2 })
     }
 
     fn exec_inner(&mut self, line: &str) -> (String, String) {
@@ -598,7 +598,21 @@ impl Sut for S {
         match &self.w {
             Some(w) => {
                 self.cur = w.snapshot();
-                (header.to_string(), format!("case ok {} ## {}", self.cur.render(), self.cur.render_drift()))
+                // the model gets the addresses the contracts really have
+                let model_header: String = header
+                    .split(' ')
+                    .map(|wd| {
+                        if wd.starts_with("self=") {
+                            format!("self={}", w.splits_id)
+                        } else if wd.starts_with("group=") && kv(header, "mode") != Some("bad") {
+                            format!("group={}", w.group_id)
+                        } else {
+                            wd.to_string()
+                        }
+                    })
+                    .collect::<Vec<_>>()
+                    .join(" ");
+                (model_header, format!("case ok {} ## {}", self.cur.render(), self.cur.render_drift()))
             }
             None => {
                 self.cur = Snap::default();
